@@ -56,7 +56,7 @@ Lab(k) == "L" \o ToString(k)
 
 IntLeaf  == <<"i", "j", "p", "7", "c", "sh", "(int)u", "a[1]", "*pp", "s.m", "b.bf", "sp.c[1]", "(int)sizeof vla", "0", "(-1)", "(int)b.lf">>
 LongLeaf == <<"l", "lp", "(long)pp", "5000000000", "s.n", "b.lf">>
-DblLeaf  == <<"d", "dp", "1.5", "fl", "0.0">>
+DblLeaf  == <<"d", "dp", "1.5", "fl", "0.0", "(double)u", "(double)(unsigned long)l", "(float)u">>
 CondLeaf == <<"i", "d", "l", "pp", "fl", "c", "sh", "u", "b.ub", "1", "0">>
 ArithOps == <<"+", "-", "*", "/", "%", "&", "|", "^", "<<", ">>", "<", ">", "<=", ">=", "==", "!=">>
 LongOps  == <<"+", "-", "*", "/", "%", "&", "|", "^">>
@@ -80,7 +80,11 @@ GlobTab == <<
   [decl |-> "static int h13[2]; int *g13 = &h13[1];",                             name |-> "g13", size |-> 8,  align |-> 8],
   [decl |-> "struct { char s[3]; short h; } g14[2] = {{\"ab\", 1}};", name |-> "g14", size |-> 12, align |-> 2],
   [decl |-> "unsigned short g15[] = u\"ab\";",                  name |-> "g15", size |-> 6,  align |-> 2],
-  [decl |-> "struct { long l : 33; char c; } g16 = {1, 2};",    name |-> "g16", size |-> 8, align |-> 8] >>
+  [decl |-> "struct { long l : 33; char c; } g16 = {1, 2};",    name |-> "g16", size |-> 8, align |-> 8],
+  [decl |-> "unsigned short g17[5] = u\"ab\";",                name |-> "g17", size |-> 10, align |-> 2],
+  [decl |-> "unsigned g18[4] = U\"a\";",                       name |-> "g18", size |-> 16, align |-> 4],
+  [decl |-> "char g19[8] = \"ab\";",                           name |-> "g19", size |-> 8,  align |-> 1],
+  [decl |-> "struct { char c; double d; float f; } g20 = {1, 2.0, 3.0f};", name |-> "g20", size |-> 24, align |-> 8] >>
 
 (* ------------------------------------------------------------------------ *)
 Leafy(sym) == sym.d >= MaxD \/ steps >= MaxSteps
@@ -99,7 +103,7 @@ Rhs(sym) ==
                  \o << <<"(", C, "&&", C, ")">>, <<"(", C, "||", C, ")">>, <<"!", C>>, <<"(", C, "?", I, ":", I, ")">>,
                        <<"(", E, ",", I, ")">>, <<"(i =", I, ")">>, <<"(j +=", I, ")">>, <<"i++">>, <<"--j">>, <<"(u >>=", I, ")">>,
                        <<"fi(", I, ")">>, <<"vf(", I, ",", I, ",", D, ")">>, <<"vx(", I, ", \"s\",", L, ",", D, ")">>,
-                       <<"(int)", D>>, <<"(int)", L>>, <<"a[", I, "& 3]">>, <<"(b.ub =", I, ")">>, <<"(b.bf +=", I, ")">>,
+                       <<"(int)", D>>, <<"(int)", L>>, <<"(int)(unsigned)", D>>, <<"(int)(unsigned long)", D>>, <<"(int)(unsigned)fl">>, <<"a[", I, "& 3]">>, <<"(b.ub =", I, ")">>, <<"(b.bf +=", I, ")">>,
                        <<"gs(", I, ").m">>, <<"(", L, "<", L, ")">>, <<"(", D, ">=", D, ")">>, <<"(pp == 0)">>,
                        <<"(int[2]){", I, ", 2}[1]">>, <<"fp(", I, ")">>, <<"(c =", I, ")">>, <<"-", I>>, <<"~", I>>,
                        <<"(", C, "? i : j)">>, <<"(sh ?", I, ":", I, ")">> >>
